@@ -27,10 +27,21 @@ type mintCfg struct {
 	Start   time.Duration
 	Periods []mp
 	Denom   string
+	FirstID int // sequence id of the first period (0 means 1); validation only asks for consecutive ids > 0
+}
+
+func (c mintCfg) first() int {
+	if c.FirstID > 0 {
+		return c.FirstID
+	}
+	return 1
 }
 
 func (c mintCfg) String() string {
 	s := fmt.Sprintf("start=%s", c.Start)
+	if c.first() != 1 {
+		s += fmt.Sprintf(" ids-from-%d", c.first())
+	}
 	for _, p := range c.Periods {
 		switch p.Kind {
 		case ref.NoMint:
@@ -74,7 +85,7 @@ func (c mintCfg) Params() mtypes.Params {
 		if err != nil {
 			panic(err)
 		}
-		m := &mtypes.Minter{SequenceId: uint32(i + 1), Config: any}
+		m := &mtypes.Minter{SequenceId: uint32(i + c.first()), Config: any}
 		if per.End != 0 {
 			t := harness.T0.Add(per.End)
 			m.EndTime = &t
@@ -104,7 +115,13 @@ func (c mintCfg) Schedule() ref.Schedule {
 }
 
 func (c mintCfg) Genesis(lastMint time.Time) *mtypes.GenesisState {
-	return &mtypes.GenesisState{Params: c.Params(), MinterState: freshMinterState(lastMint)}
+	return &mtypes.GenesisState{Params: c.Params(), MinterState: c.freshState(lastMint)}
+}
+
+func (c mintCfg) freshState(t time.Time) mtypes.MinterState {
+	ms := freshMinterState(t)
+	ms.SequenceId = uint32(c.first())
+	return ms
 }
 
 func freshMinterState(t time.Time) mtypes.MinterState {
